@@ -46,6 +46,10 @@ func enterNetlab() bool {
 	bin := filepath.Join(work, "sx-e2e")
 	os.Remove(bin)
 	b := exec.Command("go", "build", "-o", bin, ".")
+	if os.Getenv("VERIF_COVER") != "" {
+		// tools/coverage.sh: which statements of sx do the end-to-end components execute (GOCOVERDIR is inherited)
+		b = exec.Command("go", "build", "-cover", "-coverpkg=github.com/v-byte-cpu/sx/...", "-o", bin, ".")
+	}
 	b.Dir = repo
 	b.Env = append(os.Environ(), "GOFLAGS=-mod=mod", "GOPROXY=off", "GOSUMDB=off", "GOTOOLCHAIN=local", "CGO_ENABLED=1")
 	if out, err := b.CombinedOutput(); err != nil {
